@@ -46,7 +46,7 @@ static size_t call(const FCase &c, Ctx &k, char *buf, size_t len, XBuf *textCopy
     switch (c.fn) {
         case F_NUMBER: {
             scpi_number_t n; memset(&n, 0, sizeof n);
-            n.special = c.special != 0; n.unit = (scpi_unit_t) c.unit; n.base = 10;
+            n.special = c.special != 0; n.unit = (scpi_unit_t) c.unit; n.base = (int8_t) c.base;   // the base the number was written in (every field of scpi_number_t is the caller's to set)
             if (c.special) n.content.tag = c.tag; else n.content.value = c.d;
             return SCPI_NumberToStr(&k.ctx, scpi_special_numbers_def, &n, buf, len);
         }
@@ -103,6 +103,8 @@ static void valueSet(std::vector<FCase> &out) {
     for (int i = 0; scpi_units_def[i].name; i++) if (scpi_units_def[i].mult == 1) { bool seen = false; for (int u : units) seen |= u == (int) scpi_units_def[i].unit; if (!seen) units.push_back((int) scpi_units_def[i].unit); }
     for (int u : units) for (double d : {10.5, -1.25e-7, 1.0, 1.23456789012345e+100}) { FCase c; c.fn = F_NUMBER; c.d = d; c.unit = u; out.push_back(c); }
     for (int tag = -1; tag <= 11; tag++) { FCase c; c.fn = F_NUMBER; c.special = 1; c.tag = tag; out.push_back(c); }
+    // numbers read from #B/#Q/#H literals carry their base
+    for (int b : {2, 8, 16, 0}) for (double d : {0.0, 5.0, 1365.0, 8191.0, 1099511627776.0, 9223372036854775808.0, 2.5, -3.0}) for (int u : {(int) SCPI_UNIT_NONE, (int) SCPI_UNIT_VOLT}) { FCase c; c.fn = F_NUMBER; c.d = d; c.unit = u; c.base = b; out.push_back(c); }
     for (double d : vals) {
         FCase c; c.d = d;
         c.fn = F_FLOAT; out.push_back(c);
@@ -162,6 +164,7 @@ static FCase decode(Src &s) {
     c.special = s.prob(1, 5); c.tag = s.irange(-2, 12);
     c.prec = (int) s.range(1, 15); c.flags = (int) s.range(0, 7);
     c.u = s.u64() >> s.range(0, 63); c.base = s.pick(std::vector<int>{10, 2, 8, 16});
+    if (c.fn == F_NUMBER && c.base != 10 && s.coin()) c.d = (double) c.u;      // an integer, as a non-decimal literal denotes
     if (c.fn == F_COPYTEXT) {
         char q = s.coin() ? '"' : '\''; size_t n = s.range(0, 30);
         c.text = std::string(1, q);
